@@ -276,6 +276,18 @@ def run(ctx):
                     res.count("string_form_documents")
                     res.seen("string-form-pairs", f"{nk}/{nv} in {kw}{' at the root' if hi == 4 else ''}")
                     judge(ctx, eng, sfront, text, "string-forms", h(text))
+        # values that START like a delimited token (/regex/, \\regex\\, %var%, `string`) but are not closed on their line, with the same
+        # delimiter again further down (in a comment, a string, an expression): every load mode has to lex them the same way
+        if ctx.shard == 0:
+            openers = ["/roads", "/data", "%var", "%x", "\\\\ab", "`abc", "/a b"]
+            laters = ['# see a/b and 100% `x` \\\\y', 'NAME "x/y 50% `z` \\\\w"', 'FILTER ([a] / 2 > 1)', '/* a/b % ` */', 'DATA "p/q"\n  # %v% /r/']
+            for op in openers:
+                for lt in laters:
+                    for tmpl in ("LAYER\n  TEMPLATE {op}\n  {lt}\n  STATUS ON\nEND\n", "MAP\n  SHAPEPATH {op}\n  LAYER\n    {lt}\n  END\nEND\n",
+                                 "LAYER\n  PROCESSING {op} # c\n  {lt}\nEND\n"):
+                        text = tmpl.format(op=op, lt=lt)
+                        res.count("open_delimiter_documents")
+                        judge(ctx, eng, sfront, text, "open-delimiter", h(text))
         # documents spread over INCLUDE files (comments on the INCLUDE lines and inside the included files, multi-line strings)
         from . import C15
         import mappyfile
